@@ -1,0 +1,41 @@
+//! Replication internals (C10 and friends).
+use crate::repl::proto::ReplCidRange;
+use crate::repl::ruv::{RangeDiffStatus, ReplicationUpdateVector};
+use std::collections::BTreeMap;
+use uuid::Uuid;
+
+/// Mirror of the crate-private `RangeDiffStatus`.
+#[derive(Debug, PartialEq, Eq)]
+pub enum RangeDiff {
+    Ok(BTreeMap<Uuid, ReplCidRange>),
+    Refresh {
+        lag_range: BTreeMap<Uuid, ReplCidRange>,
+    },
+    Unwilling {
+        adv_range: BTreeMap<Uuid, ReplCidRange>,
+    },
+    Critical {
+        lag_range: BTreeMap<Uuid, ReplCidRange>,
+        adv_range: BTreeMap<Uuid, ReplCidRange>,
+    },
+    NoRUVOverlap,
+}
+
+pub fn range_diff(
+    consumer_range: &BTreeMap<Uuid, ReplCidRange>,
+    supplier_range: &BTreeMap<Uuid, ReplCidRange>,
+) -> RangeDiff {
+    match ReplicationUpdateVector::range_diff(consumer_range, supplier_range) {
+        RangeDiffStatus::Ok(m) => RangeDiff::Ok(m),
+        RangeDiffStatus::Refresh { lag_range } => RangeDiff::Refresh { lag_range },
+        RangeDiffStatus::Unwilling { adv_range } => RangeDiff::Unwilling { adv_range },
+        RangeDiffStatus::Critical {
+            lag_range,
+            adv_range,
+        } => RangeDiff::Critical {
+            lag_range,
+            adv_range,
+        },
+        RangeDiffStatus::NoRUVOverlap => RangeDiff::NoRUVOverlap,
+    }
+}
